@@ -57,8 +57,18 @@ def fixstr_case(p, cap, lenname="UDINT"):
 LEN_TYPES = ["USINT", "UINT", "UDINT", "SINT", "INT", "DINT"]
 
 
+MAX_TYPE_BYTES = 4096
+
+
 def gen_type(p, rng, depth, elem_pool=None):
-    """Random type from the constructor grammar, nesting depth <= depth."""
+    """Random type from the constructor grammar, nesting depth <= depth, fixed part <= MAX_TYPE_BYTES."""
+    while True:
+        c = _gen_type(p, rng, depth, elem_pool)
+        if rc.min_size(c.desc) <= MAX_TYPE_BYTES:
+            return c
+
+
+def _gen_type(p, rng, depth, elem_pool=None):
     elems = elem_pool or elementary_cases(p)
     roll = rng.random()
     if depth <= 0 or roll < 0.30:
@@ -179,6 +189,42 @@ def gen_structtag(p, rng, depth, elems):
     lib = p.StructTag(*members, bit_members={n: (o, b) for n, o, b in bitdesc}, private_members=set(private), struct_size=size)
     return TypeCase(f"StructTag(size={size},{len(members)}m,{len(bitdesc)}b)", lib,
                     ("udt", size, tuple(mdesc), tuple(bitdesc), frozenset(private)), depth=1)
+
+
+def consumes_rest(desc):
+    k = desc[0]
+    if k == "uarray" or (k == "bytes" and desc[1] == -1):
+        return True
+    if k == "struct" and desc[1]:
+        return consumes_rest(desc[1][-1][1])
+    return False
+
+
+def contains_uarray(desc):
+    k = desc[0]
+    if k == "uarray":
+        return True
+    if k in ("array", "larray"):
+        return contains_uarray(desc[-1])
+    if k == "struct":
+        return any(contains_uarray(d) for n, d in desc[1])
+    if k == "udt":
+        return any(contains_uarray(d) for n, d, o in desc[2])
+    return False
+
+
+def has_nested_larray(desc, top=True):
+    """derived-length arrays omit their prefix on encode, so they only round-trip at top level"""
+    k = desc[0]
+    if k == "larray":
+        return (not top) or has_nested_larray(desc[2], False)
+    if k in ("array", "uarray"):
+        return has_nested_larray(desc[-1], False)
+    if k == "struct":
+        return any(has_nested_larray(d, False) for n, d in desc[1])
+    if k == "udt":
+        return any(has_nested_larray(d, False) for n, d, o in desc[2])
+    return False
 
 
 # ---------------------------------------------------------------------------------------------
@@ -377,7 +423,7 @@ def bad_values(desc, rng):
                 out.append(("member-" + lbl, good[:i] + [bv] + good[i + 1:]))
                 break
     elif k == "fixstr":
-        out += [("int", 5), ("list", ["a"]), ("bytes", b"ab"), ("unencodable", "aĀ"), ("None", None), ("object", object())]
+        out += [("int", 5), ("list", ["a"]), ("bytes", b"ab"), ("unencodable", "Āa"), ("None", None), ("object", object())]
     elif k == "udt":
         good = gen_value(desc, rng)
         if good:
